@@ -59,6 +59,10 @@ impl<V, G> HnswIndex<V, G> {
     }
 
     fn random_level(&self) -> u8 {
+        #[cfg(nervusdb_verif)]
+        if let Some(level) = crate::verif_hooks::hnsw_level() {
+            return level;
+        }
         let mut rng = rand::thread_rng();
         let ml = 1.0 / (self.params.m as f64).ln();
         let r: f64 = rng.r#gen();
